@@ -437,9 +437,11 @@ func opThreadLast(env *LEnv, args *LVal) *LVal {
 		return env.Terminal(val)
 	}
 	for i, expr := range exprs {
+		var hole *LVal
+		env, hole = threadOperand(env, val, i)
 		cells := make([]*LVal, 0, len(expr.Cells)+1)
 		cells = append(cells, expr.Cells...)
-		cells = append(cells, val)
+		cells = append(cells, hole)
 		// The call built for this step stands where the form it was built
 		// from was written: errors and stack frames get that position.
 		call := SExpr(cells)
@@ -453,6 +455,23 @@ func opThreadLast(env *LEnv, args *LVal) *LVal {
 		}
 	}
 	return val
+}
+
+// threadOperand returns what a threading step puts in its call and the
+// environment to evaluate the call in.  The first step threads the operator's
+// first argument, an expression that has not been evaluated yet.  Every later
+// step threads the VALUE of the previous step: placing the value itself in the
+// call would evaluate it a second time -- (thread-first '(a) (car) (list 1))
+// would look the symbol a up -- so it is bound to a fresh name in a child
+// scope and the call refers to that name.
+func threadOperand(env *LEnv, val *LVal, step int) (*LEnv, *LVal) {
+	if step == 0 {
+		return env, val
+	}
+	name := env.GenSym()
+	child := newEnvN(env, 1)
+	child.Put(name, val)
+	return child, name
 }
 
 func opThreadFirst(env *LEnv, args *LVal) *LVal {
@@ -469,9 +488,11 @@ func opThreadFirst(env *LEnv, args *LVal) *LVal {
 		return env.Terminal(val)
 	}
 	for i, expr := range exprs {
+		var hole *LVal
+		env, hole = threadOperand(env, val, i)
 		cells := make([]*LVal, 0, len(expr.Cells)+1)
 		cells = append(cells, expr.Cells[0])
-		cells = append(cells, val)
+		cells = append(cells, hole)
 		cells = append(cells, expr.Cells[1:]...)
 		call := SExpr(cells)
 		call.source = expr.source
